@@ -25,10 +25,10 @@ PROPS["C17"] = {
         "stored tree positions: the position-carrying parser model (Model/ParsePos.lean, erasing to the C06 parser model) is compared with the real parser's stored positions on every generated tree x layout; error positions are judged on the implementation's outputs by executable specifications (Driver/C17.lean)",
     ],
     "assumptions": ["Go int is 64 bit", "models of token.go and errchain are hand written; tied by the correspondence run on every check"],
-    "technique": "Lean 4 theorems (both lookup routines = declarative line/column specification for all texts and offsets; error-chain store: an append reaches only its own handle, copies are independent, rendering shape; position-carrying parser: it accepts exactly what the parser model accepts and builds the same trees (parse_eq_erase), every stored position is the offset of an input token of the expected kind (positions_are_token_offsets), attribute expressions start at their object, stored positions respect source order) + differential correspondence with token.go, errchain and the real parser's stored positions + executable position specifications on injected faults",
+    "technique": "Lean 4 theorems (run-time errors of the v1 interpreter model are located: runtime_error_located, expression_error_inside_node, runtime_error_root_cause, runtime_error_position_is_token - for all environments, scripts, states and fuel; both lookup routines = declarative line/column specification for all texts and offsets; error-chain store: an append reaches only its own handle, copies are independent, rendering shape; position-carrying parser: it accepts exactly what the parser model accepts and builds the same trees (parse_eq_erase), every stored position is the offset of an input token of the expected kind (positions_are_token_offsets), attribute expressions start at their object, stored positions respect source order) + differential correspondence with token.go, errchain and the real parser's stored positions + executable position specifications on injected faults",
     "level_text": "Kernel-checked: the models of PosCache.LnCol (binary search) and LnCol (linear scan) equal the declarative line/column specification for every byte string and integer offset; in the error-chain store model an append changes exactly one error and a copy shares nothing. "
-                  "Tied to token.go and errchain by exhaustive texts/operation sequences on every check. The position-carrying parser model stores, for every node, the byte offsets of exactly the tokens the property names (kernel-checked for all token lists); it is tied to parser.go by comparing all stored positions on generated trees x layouts. Error positions are decided per generated input on the implementation's own output.",
-    "level_note": "Partial for error positions: decided on generated inputs. The source-order theorems hold for every source text: lexAll_sorted (from the coverage theorem of C05) discharges the sortedness hypothesis. Block brace positions are not dumped and not modelled. Trusted: Lean kernel; the hand-written models' fidelity is checked by correspondence.",
+                  "Tied to token.go and errchain by exhaustive texts/operation sequences on every check. The position-carrying parser model stores, for every node, the byte offsets of exactly the tokens the property names (kernel-checked for all token lists); it is tied to parser.go by comparing all stored positions on generated trees x layouts. Run-time errors of the v1 interpreter model carry, for every script, state, environment and fuel, a non-empty chain whose links name the running script (or a script reached through use(), root cause first) at stored token positions of that script's statements - inside the node being evaluated (kernel-checked); every run case compares the model's whole chain with the implementation's. Load-time and v2 error positions are decided per generated input on the implementation's own output.",
+    "level_note": "Partial for load-time (parse, check, link) and v2 error positions: decided on generated inputs; run-time error positions of v1 are a theorem about the model. The source-order theorems hold for every source text: lexAll_sorted (from the coverage theorem of C05) discharges the sortedness hypothesis. Block brace positions are not dumped and not modelled. Trusted: Lean kernel; the hand-written models' fidelity is checked by correspondence.",
 }
 
 
@@ -202,8 +202,8 @@ _mk("C01",
          "object-less index expressions, attribute expressions, every builtin with the argument shapes its checker accepts, exit(), on random points (tags/fields of every type, nil, colliding names); "
          "each program is loaded and run by the real engine in a worker process (panic, fatal error, timeout and OOM are classified) and by the model; "
          "specification on the implementation's outcome: it is success or a script error carrying script name and position, never a panic/abort; distinct = distinct program text",
-    technique="Lean 4 theorem no_panic (every Go operation that can panic is an explicit panic result of the model, guarded as in the Go code; no checked script on any well-tagged world, signal, map order, engine oracle and fuel reaches one; by induction on fuel with a state invariant, 26 builtins) + random-program correspondence in a crash-isolating worker",
-    level_text="Kernel-checked for all checked programs (argument counts as the *Checking functions guarantee, for-in variables are identifiers), all well-tagged initial worlds with C10's point invariant, all signals, map orders, engine answers and fuel: the model run never ends in `panic`; the final state is again well formed. "
+    technique="Lean 4 theorem no_panic (every Go operation that can panic is an explicit panic result of the model, guarded as in the Go code; no checked script on any well-tagged world, signal, map order, engine oracle and fuel reaches one; by induction on fuel with a state invariant, 26 builtins) + Lean 4 theorems runtime_error_located / runtime_error_names_script_and_position / runtime_error_root_cause (a failure of the model run carries a non-empty chain whose links name the running script, or a script it uses, at positions designated by that script's tree; Hoare logic for error postconditions, induction on fuel) + random-program correspondence in a crash-isolating worker (outcome, whole error chain, final point)",
+    level_text="Kernel-checked for all checked programs (argument counts as the *Checking functions guarantee, for-in variables are identifiers), all well-tagged initial worlds with C10's point invariant, all signals, map orders, engine answers and fuel: the model run never ends in `panic`; the final state is again well formed; when it ends in a script error (for any program, checked or not), the error chain is non-empty, names the running script last and the script at fault first, each at a position designated by that script's own statements (a stored token position). "
                "Inputs are required to be representable (all integers int64: a Go invariant). The model is tied to runtime.go/funcs by random programs run through both.",
     level_note="Partial: the model's panic points are hand-placed next to the Go operations they mirror (type assertions, index expressions, accessor calls) and validated by correspondence; Go runtime failures that are not language-level panics (stack exhaustion on cyclic values passed to printf/strfmt, out-of-memory) are outside the model; third-party engines (grok, xmlquery, dateparse) are oracles and their own panics are not modelled.",
     extra_tb=[TB_FLOAT, "engines (grok, xmlquery, dateparse, strconv, regexp, encoding/json) are oracles: answered by the real libraries, assumed not to panic"])
